@@ -221,6 +221,14 @@ CLAIMED = {
         note="Assumed: create_impedance / create_line_from_parameters store their arguments; the line pi model (C02). Not decided: the "
              "other transformations named in the statement (ext_grid -> gen, ward / xward replacement, merge_nets, select_subnet, "
              "drop_inactive_elements, fuse_buses, merge_parallel_line), result / profile / group adaptation."),
+    "C18": dict(
+        text="Proof: the real _kappa gives 1.02 < kappa <= 2 for every R/X >= 0; provenance contract for the network matrices: the real "
+             "_calc_rx reads Zbus when inverse_y else ybus_fact, and the real _kappa_method_c hands it an equivalent-frequency copy "
+             "whose Zbus / ybus_fact is the inverse / factorisation of that copy's own Ybus for both values of inverse_y (so the two "
+             "options describe the same network). The IEC relations of the results (ikss, skss, 2ph/3ph ratio, ip) are only a bounded "
+             "stand-in (native calc_sc runs on one fixed meshed network), labelled bounded.",
+        note="Assumed: scipy inv / factorized, makeYbus (C02). Not decided deductively: currents.py (2-D complex arrays), independence "
+             "of sn_mva and of the set of faulted buses, kappa method B."),
 }
 
 NOT_APPLICABLE = {
